@@ -84,13 +84,14 @@ type Exit struct {
 }
 
 type Run struct {
-	curBound T // term of the bound method value being called (for result records)
-	e        *Engine
-	fn       *ssa.Function
-	blk      *Block
-	exits    []*Exit
-	work     []*State
-	paths    int
+	curBound    T // term of the bound method value being called (for result records)
+	e           *Engine
+	fn          *ssa.Function
+	blk         *Block
+	exits       []*Exit
+	work        []*State
+	paths       int
+	effectHavoc bool // havoc in progress models the effects of a callee of this thread (not interference)
 }
 
 func (e *Engine) posOf(in ssa.Instruction) string {
